@@ -41,6 +41,34 @@ and the next `wait` runs all of them again. (c) `setup` (l.41-56): `inner()` (jo
 dispatch), then the setup hook of every system of every stage in stage / group order, then of
 every thread-local system (events `hook`).
 
+**The calling context.** The model has no parameter for *which* thread drives the dispatcher, and
+needs none. `Th.caller` is whichever thread calls the methods — the `AsyncDispatcher` is not
+`Send` (it owns the thread-local systems), so one thread builds it and issues every call — and
+that thread may be (i) an ordinary thread, (ii) a worker of the dispatcher's own pool (the
+dispatcher is driven inside `pool.install(..)` or from a job of a pool shared through
+`with_pool`), or (iii) a worker of some other pool. The code is the same in all three: the only
+thing `dispatch` does with the pool is `ThreadPool::spawn` (l.66-79), which queues the closure —
+in context (ii) on the calling worker's own deque, otherwise in the pool's injector — and
+returns; `inner()` / `inner_noblock()` are `std::sync::mpsc` `recv` / `try_recv` (l.146-181),
+about which rayon knows nothing: a blocking call parks the calling thread in `recv` whether or not
+it is a pool worker, and it never executes pool jobs while it waits. Hence, in every context,
+(a) the job's systems run on a pool thread *other than* the calling thread (`jobEv` emits
+`sys .worker`; `Th.worker` = "a pool thread that is not the caller"), (b) a blocking call returns
+only through the message of the job's `send` (`acquire` needs `available`), however idle the
+pool's queues look from the calling thread, and (c) thread-local systems and setup hooks run on
+the calling thread, whichever that is (`tlEv`, `hookEv` emit `.caller`). The test harness tags
+the thread that drives the dispatcher `c` in every context and every other pool thread `w`.
+What does depend on the context is a *fairness* assumption, not a state of the model: `Run`
+contains every interleaving but says nothing about which enabled step is eventually taken; the
+job's steps are taken by the pool's other workers, so in context (ii) the pool needs at least two
+threads — with exactly one, the only thread that could run the queued closure is the one parked
+in `recv`, and no `jobEv` is ever scheduled although it is enabled (`blocked_only_while_running`
+is about enabledness; the harness does not generate that configuration).
+
+**Long plans.** `APlan.job` is an arbitrary task; the job's closure is one loop over all stages
+(l.74-76), modelled by the derivative of the whole `stagesTask`, so the number of stages is not
+a parameter either: a plan of twenty stages is a `seqN` of twenty stage tasks.
+
 Not modelled: `Option::unwrap` of the pool (always `Some` after `build_async`, builder.rs
 l.437-440); what a setup hook does to the world (C13 / C06).
 
@@ -55,7 +83,9 @@ namespace Async
 inductive AOp | dispatch | wait | waitWithoutTl | running | world | worldMut | setup | res | mutRes
 deriving DecidableEq, Repr
 
-/-- `c` = the thread that calls the dispatcher's methods, `w` = a pool thread -/
+/-- `caller` = the thread that calls the dispatcher's methods (an ordinary thread, a worker of the
+dispatcher's own pool, or a worker of another pool — see "The calling context" above), `worker` =
+a pool thread that is not that thread -/
 inductive Th | caller | worker
 deriving DecidableEq, Repr
 
